@@ -1,7 +1,30 @@
 #!/usr/bin/env python3
 """C05 — the forward-backward envelope decreases along the reported iterates; the step size never
-grows.  DESIGN.md §6 C05.  Proof stage on Props/C05.lean, trace-replay correspondence of the loop
-model, and monitors on the progress-callback stream of the real solver."""
+grows.  DESIGN.md §6 C05.
+
+One proof stage over Props/C05 (PANOC), C05_Zerofpr, C05_Pantr, C05_Ocp, then per solver: harness build
+from the working tree, seeded runs (quadratic_upperbound_tolerance_factor and linesearch_tolerance_factor
+/ TR_tolerance_factor drawn *independently*), bit-exact trace replay against the solver's loop model, and
+the monitors below on the progress-callback stream of the *real* solver (independent of the models):
+
+  every solver   γ never increases; γ·L = Lγ_factor (one rounding of the initial division, exact
+                 afterwards); every reported iterate satisfies the quadratic upper bound unless its L
+                 reached L_max (exact rationals, a few ulps of the operands)
+  PANOC / ZeroFPR / PANOC-OCP
+                 accelerated step (τ > 0): the documented acceptance test re-evaluated in doubles exactly
+                 like the library, on the callback's own fields:
+                     φ(k+1) ≤ φ(k) − β(1−γL)/(2γ)·‖p‖² + (1+|φ(k)|)·linesearch_tolerance_factor
+                 safeguarded step (τ = 0): φ(k+1) ≤ φ(k) − (1−γL)/(2γ)·‖p‖² + (1+|ψ(k)|)·qub_tolerance
+                 (exact rationals, slack 64 ε of the operands), for iterates that satisfy the bound
+  PANTR          accepted ⇒ ρ ≥ ratio_threshold_acceptable, the reported ρ recomputed bit-exactly from the
+                 recorded evaluations of the forward-backward point and the candidate; next iterate is
+                 x̂+q / x̂; rejected step = plain forward-backward step (descent as above); accepted step:
+                 φ(k+1) ≤ φ(k) − (1−γL)/(2γ)‖p‖² + qub-margin + TR-margin whenever the tested candidate is
+                 the reported one (step size unchanged, or compute_ratio_using_new_stepsize); Δ ≥ min_radius
+Excluded with a counted reason (hypotheses of the theorems): force_linesearch, iterates rewritten by
+recompute_last_prox_step_after_stepsize_change, non-finite data, ratio_threshold_acceptable < 0,
+ratio_approx_fbe_quadratic_model with Lγ_factor ≥ 1.
+"""
 import math
 import os
 import sys
@@ -12,13 +35,13 @@ import common as C
 import solvers as S
 import c03
 import loops as LP
+import loopmon as LM
 from loops import EPS
 
-SOLVERS = ['panoc']           # ZeroFPR / PANTR / PANOC-OCP: append once their loop modules exist
+SOLVERS = ['panoc', 'zerofpr', 'pantr', 'ocp']
 
 # what the monitors covered (written to the evidence file)
 COUNTS = {}
-HUNG = []
 
 # inputs kept from earlier failures, run first
 CORPUS = [
@@ -34,9 +57,30 @@ CORPUS = [
     'L0=3f90000000000000 stopat=0 stopcb=0 nanat=0 oot=0 wmscratch=0',
 ]
 
+# the two rounding margins are independent parameters: drawn independently (a coarse class included so
+# that a candidate falling *between* the two margins is reached by ordinary runs)
+QUBTOLS = [10 * EPS, 10 * EPS, 1e-8, 1e-4, 1e-2, 0.25]
+LSTOLS = [10 * EPS, 10 * EPS, 1e-10, 1e-6, 1e-3]
+
 
 def bump(k, n=1):
     COUNTS[k] = COUNTS.get(k, 0) + n
+
+
+def draw_margins(rng, op, ls_key='lstol'):
+    op['qubtol'] = C.f2h(rng.choice(QUBTOLS))
+    if ls_key:
+        op[ls_key] = C.f2h(rng.choice(LSTOLS))
+    return op
+
+
+def near_convergence(rng, op):
+    """A long run towards a stationary point: consecutive envelopes differ by less than the coarse
+    margins, so which margin the line search uses decides acceptance."""
+    op['maxiter'] = str(rng.choice([20, 60]))
+    op['tol'] = C.f2h(1e-13)
+    op['stopat'] = '0'; op['stopcb'] = '0'; op['nanat'] = '0'; op['oot'] = '0'
+    return op
 
 
 def gen_run(rng, solver='panoc', **over):
@@ -49,8 +93,44 @@ def gen_run(rng, solver='panoc', **over):
     r = rng.random()
     if r < 0.05:
         op['Lmax'] = C.f2h(rng.choice([4.0, 64.0, 1024.0]))
+    draw_margins(rng, op)
+    if rng.random() < 0.2:
+        near_convergence(rng, op)
+        op['force'] = '0'
     return op
 
+
+def gen_run_zerofpr(rng, mod):
+    op = mod.gen_run(rng, wild=rng.random() < 0.12)
+    if rng.random() < 0.75:          # its own generator already mixes {10ε, 0, 1e-3} for both
+        draw_margins(rng, op)
+    if rng.random() < 0.2:
+        near_convergence(rng, op)
+        op['force'] = '0'
+        op['dir'] = rng.choice(['adv', 'adv', op['dir']])
+    return op
+
+
+def gen_run_pantr(rng, mod):
+    op = mod.gen_run(rng)
+    if rng.random() < 0.75:
+        draw_margins(rng, op, ls_key='trtol')
+    if rng.random() < 0.2:
+        near_convergence(rng, op)
+    return op
+
+
+def gen_run_ocp(rng, mod):
+    op = mod.gen_run(rng)
+    draw_margins(rng, op)
+    op['Lgf'] = C.f2h(rng.choice([0.95, 0.95, 0.5, 1.0]))
+    op['beta'] = C.f2h(rng.choice([0.95, 0.95, 0.5, 1.0]))
+    if rng.random() < 0.2 and op.nat('crit') in (2, 3, 4, 5, 6, 7):
+        near_convergence(rng, op)
+    return op
+
+
+# ------------------------------------------------------------------ PANOC-like solvers
 
 def qub_rhs_float(cb, qubtol):
     """ψ + ∇ψᵀp + ½L‖p‖² + (1+|ψ|)·qub_tol evaluated like the library does (doubles)."""
@@ -74,29 +154,20 @@ def qub_holds(cb, qubtol):
     return Fr(cb['psi_hat']) <= rhs + slack, float(Fr(cb['psi_hat'])), float(rhs), float(slack)
 
 
-def monitor(op_line, out_line, st):
-    if out_line.startswith('exception') or out_line in ('bad-op', 'bad-direction'):
-        return f'harness: {out_line[:100]}'
-    op = S.Op.parse(op_line)
-    r = S.parse_out(out_line)
-    if r['stats']['status'] == 'exception':
-        return None
-    cbs = r['cbs']
-    if not cbs:
-        bump('runs_without_callbacks')
-        return None
-    P = LP.params(op)
-    rec = LP.recomputed(r)
-    rec += [False] * (len(cbs) - len(rec))
-    bump('runs')
-    if op.get('dir') == 'adv':
-        bump('runs_adversarial_direction')
-    # ---- γ never increases; γ·L constant ------------------------------------------------------
+def ocp_view(r):
+    """PANOC-OCP callbacks under the field names the PANOC monitor reads (h ≡ 0: box constraints only)."""
+    for cb in r['cbs']:
+        cb['x'] = cb['u']; cb['xhat'] = cb['uhat']
+    return r
+
+
+def gamma_checks(cbs, P, tag=''):
+    """γ never increases; γ·L = Lγ_factor.  → message or None."""
     g0, L0 = cbs[0]['gamma'], cbs[0]['L']
     if not LP.finite(g0, L0) or g0 <= 0 or L0 <= 0:
         return f'callback 0 reports γ={g0!r}, L={L0!r}'
     prod0 = Fr(g0) * Fr(L0)
-    if abs(prod0 - Fr(P['Lgf'])) > Fr(EPS) * Fr(P['Lgf']):
+    if abs(prod0 - Fr(P['Lgf'])) > Fr(EPS) * abs(Fr(P['Lgf'])):
         return (f'γ₀·L₀ = {float(prod0)!r} differs from Lγ_factor = {P["Lgf"]!r} by more than one '
                 f'rounding of the division')
     for k, cb in enumerate(cbs):
@@ -105,13 +176,66 @@ def monitor(op_line, out_line, st):
         if not LP.finite(cb['gamma'], cb['L']):
             return f'callback {k}: γ={cb["gamma"]!r}, L={cb["L"]!r} not finite'
         if k and cb['gamma'] > cbs[k - 1]['gamma']:
-            return (f'step size increased: γ_{k}={cb["gamma"]!r} > γ_{k-1}={cbs[k-1]["gamma"]!r} '
-                    f'(recomp={int(P["recomp"])})')
+            return (f'step size increased: γ_{k}={cb["gamma"]!r} > γ_{k-1}={cbs[k-1]["gamma"]!r}{tag}')
         underflow = cb['gamma'] < 2.0 ** -1000
         if not underflow and Fr(cb['gamma']) * Fr(cb['L']) != prod0:
             return (f'γ·L changed: callback {k} has γ·L={float(Fr(cb["gamma"]) * Fr(cb["L"]))!r}, '
                     f'callback 0 has {float(prod0)!r}')
         bump('gamma_checks')
+    return None
+
+
+def fb_step_descent(a, b, P, what):
+    """Plain forward-backward step a → b (b.x = a.x̂): φ_b ≤ φ_a − (1−γL)/(2γ)‖p‖² + (1+|ψ_a|)·qub_tol in exact
+    rationals with a slack of 64 ε of the operands.  → message or None."""
+    c = (1 - Fr(a['gamma']) * Fr(a['L'])) / (2 * Fr(a['gamma']))
+    pTp = sum(x * x for x in S.frv(a['p']))
+    margin = (1 + abs(Fr(a['psi']))) * Fr(P['qubtol'])
+    rhs = Fr(a['fbe']) - c * pTp + margin
+    gp_a = sum(abs(x * y) for x, y in zip(S.frv(a['p']), S.frv(a['grad_psi'])))
+    gp_b = sum(abs(x * y) for x, y in zip(S.frv(b['p']), S.frv(b['grad_psi'])))
+    mag = max(1, abs(Fr(a['fbe'])), abs(Fr(b['fbe'])), abs(Fr(a['psi'])), abs(Fr(a['psi_hat'])),
+              abs(Fr(b['psi'])), pTp / (2 * Fr(a['gamma'])),
+              Fr(b['pTp']) / (2 * Fr(b['gamma'])), gp_a, gp_b)
+    # ψ(x̂_k) may be evaluated twice by different routines (eval_ψ, eval_ψ_grad_ψ): their difference is
+    # evaluation noise of the problem oracle, not of the solver
+    slack = 64 * Fr(EPS) * mag + abs(Fr(b['psi']) - Fr(a['psi_hat']))
+    if Fr(b['fbe']) > rhs + slack:
+        return (f'{what} k={a["k"]}: φ_{a["k"]+1}={b["fbe"]!r} > φ_k − (1−γL)/(2γ)‖p‖² + margin '
+                f'= {float(rhs)!r} (slack {float(slack):.3g}), γ_k={a["gamma"]!r}, γ_{a["k"]+1}={b["gamma"]!r}')
+    return None
+
+
+def monitor(op_line, out_line, st, flavor='panoc'):
+    """PANOC (default), ZeroFPR (`flavor='zerofpr'`, same callback layout) and PANOC-OCP (`'ocp'`)."""
+    if out_line.startswith('exception') or out_line in ('bad-op', 'bad-direction'):
+        return f'harness: {out_line[:100]}'
+    op = S.Op.parse(op_line)
+    if flavor == 'ocp':
+        import loop_ocp
+        r = ocp_view(loop_ocp.parse_out(out_line))
+    else:
+        r = S.parse_out(out_line)
+    if r['stats']['status'] == 'exception':
+        return None
+    cbs = r['cbs']
+    if not cbs:
+        bump('runs_without_callbacks')
+        return None
+    P = LP.params(op)
+    if flavor == 'ocp':
+        P['force'] = False; P['recomp'] = False
+        rec = [False] * len(cbs)
+    else:
+        rec = LP.recomputed(r)
+        rec += [False] * (len(cbs) - len(rec))
+    bump('runs')
+    if op.get('dir') == 'adv':
+        bump('runs_adversarial_direction')
+    # ---- γ never increases; γ·L constant ------------------------------------------------------
+    m = gamma_checks(cbs, P, f' (recomp={int(P["recomp"])})')
+    if m:
+        return m
     # ---- quadratic upper bound at every reported iterate ---------------------------------------
     for k, cb in enumerate(cbs):
         vals = [cb['psi'], cb['psi_hat'], cb['L'], cb['pTp']] + cb['p'] + cb['grad_psi']
@@ -126,7 +250,7 @@ def monitor(op_line, out_line, st):
             bump('qub_holds')
         elif cb['L'] >= P['Lmax']:
             bump('qub_violated_but_L_at_Lmax')
-        elif rec[k]:
+        elif rec[k] and flavor == 'panoc':
             # the reported iterate was rewritten with the new γ, L before the callback; ψ(x̂) is stale
             bump('qub_violated_on_rewritten_iterate')
             ex = S.Exact(op)
@@ -168,8 +292,11 @@ def monitor(op_line, out_line, st):
             if b['fbe'] > a['fbe'] - sigma * a['pTp'] + margin:
                 return (f'accelerated step k={k} (τ={tau!r}) accepted although φ_{k+1}={b["fbe"]!r} > '
                         f'φ_k − β(1−γL)/(2γ)‖p‖² + margin = {a["fbe"] - sigma * a["pTp"] + margin!r} '
-                        f'(dir={op.get("dir")})')
+                        f'(linesearch_tolerance_factor={P["lstol"]!r}, quadratic_upperbound_tolerance_factor='
+                        f'{P["qubtol"]!r}, dir={op.get("dir")})')
             bump('descent_accelerated')
+            if P['lstol'] != P['qubtol']:
+                bump('descent_accelerated_distinct_margins')
             if op.get('dir') == 'adv':
                 bump('descent_accelerated_adversarial')
         else:
@@ -177,85 +304,295 @@ def monitor(op_line, out_line, st):
             if not ok:
                 bump('descent_excluded_qub_not_met_at_Lmax')
                 continue
-            c = (1 - Fr(a['gamma']) * Fr(a['L'])) / (2 * Fr(a['gamma']))
-            pTp = sum(x * x for x in S.frv(a['p']))
-            margin = (1 + abs(Fr(a['psi']))) * Fr(P['qubtol'])
-            rhs = Fr(a['fbe']) - c * pTp + margin
-            gp_a = sum(abs(x * y) for x, y in zip(S.frv(a['p']), S.frv(a['grad_psi'])))
-            gp_b = sum(abs(x * y) for x, y in zip(S.frv(b['p']), S.frv(b['grad_psi'])))
-            mag = max(1, abs(Fr(a['fbe'])), abs(Fr(b['fbe'])), abs(Fr(a['psi'])), abs(Fr(a['psi_hat'])),
-                      abs(Fr(b['psi'])), pTp / (2 * Fr(a['gamma'])),
-                      Fr(b['pTp']) / (2 * Fr(b['gamma'])), gp_a, gp_b)
-            slack = 64 * Fr(EPS) * mag
-            if Fr(b['fbe']) > rhs + slack:
-                return (f'safeguarded step k={k}: φ_{k+1}={b["fbe"]!r} > φ_k − (1−γL)/(2γ)‖p‖² + margin '
-                        f'= {float(rhs)!r} (slack {float(slack):.3g}), γ_k={a["gamma"]!r}, γ_{k+1}={b["gamma"]!r}')
+            m = fb_step_descent(a, b, P, 'safeguarded step')
+            if m:
+                return m
             bump('descent_safeguarded')
     return None
 
 
-def nontrivial(op_line, out_line):
-    try:
-        r = S.parse_out(out_line)
-        if len(r['cbs']) >= 2:
-            return hash(op_line)
-    except Exception:
+# ------------------------------------------------------------------ PANTR
+
+def fdiv(a, b):
+    """IEEE division (Python raises on a zero divisor)."""
+    if b == 0:
+        if a != a or a == 0:
+            return float('nan')
+        return math.copysign(float('inf'), a) * math.copysign(1.0, b)
+    return a / b
+
+
+def fbe_float(psi, h, p, gamma, g):
+    """Iterate::fbe() in doubles, in the library's order: ψ + h + ‖p‖²/(2γ) + ∇ψᵀp."""
+    return psi + h + fdiv(LP.sq_norm(p), 2 * gamma) + LP.dotf(p, g)
+
+
+def pantr_iteration(seg):
+    """Read one PANTR iteration off the events recorded between two callbacks.
+    → None (no direction call) or dict(qmodel, q, phi_prox, phi_cand | None, cand_gamma, prox_gamma)."""
+    idx = [i for i, e in enumerate(seg) if e[0] == 'dapply']
+    if not idx:
         return None
+    i = idx[-1]
+    try:
+        (g, x, xh, p, gr, Delta), j = LM.take('svvvvs', seg[i], 1)
+        (qmodel, q), _ = LM.take('sv', seg[i], j)
+    except (ValueError, IndexError):
+        return {'bad': 'unreadable dapply event'}
+    out = {'qmodel': qmodel, 'q': q, 'prox_gamma': g, 'phi_prox': None, 'phi_cand': None, 'x': x}
+    # the forward-backward point: ψ, ∇ψ at x (= x̂_k) and the prox step from it
+    psi_p = h_p = None
+    for e in seg[:i]:
+        pe = LM.parse_event(e)
+        if not pe:
+            continue
+        if pe[0] == 'psigradpsi' and LM.bits(pe[1][0]) == LM.bits(x):
+            psi_p = pe[2][0]
+        elif pe[0] == 'prox' and LM.bits(pe[1][1]) == LM.bits(x) and C.f2h(pe[1][0]) == C.f2h(g) and \
+                LM.bits(pe[2][2]) == LM.bits(p):
+            h_p = pe[2][0]
+    if psi_p is not None and h_p is not None:
+        out['phi_prox'] = fbe_float(psi_p, h_p, p, g, gr)
+    # the candidate, as the ratio test saw it: last prox step recorded before the callback
+    psi_c = g_c = None
+    last = None
+    for e in seg[i + 1:]:
+        pe = LM.parse_event(e)
+        if not pe:
+            continue
+        if pe[0] == 'psigradpsi':
+            psi_c, g_c = pe[2][0], pe[2][1]
+        elif pe[0] == 'prox' and psi_c is not None:
+            last = pe
+    if last is not None:
+        out['phi_cand'] = fbe_float(psi_c, last[2][0], last[2][2], last[1][0], g_c)
+        out['cand_gamma'] = last[1][0]
+    return out
+
+
+def monitor_pantr(op_line, out_line, st):
+    import loop_pantr as PT
+    if out_line.startswith('exception') or out_line in ('bad-op', 'bad-direction'):
+        return f'harness: {out_line[:100]}'
+    if out_line.startswith('S exception'):
+        return None
+    op = S.Op.parse(op_line)
+    r = PT.parse_out(out_line)
+    cbs = r['cbs']
+    if not cbs:
+        bump('runs_without_callbacks')
+        return None
+    P = LP.params(op)
+    thr = op.flt('thracc', 0.2)
+    trtol = op.flt('trtol', 10 * EPS)
+    minrad = op.flt('minrad', 100 * EPS)
+    approx = op.nat('approx', 1) != 0
+    rationew = op.nat('rationew', 0) != 0
+    bump('runs')
+    m = gamma_checks(cbs, P)
+    if m:
+        return m
+    segs = LM.cb_segments(r['events'])
+    for k, cb in enumerate(cbs):
+        # ---- quadratic upper bound at every reported iterate -----------------------------------
+        vals = [cb['psi'], cb['psi_hat'], cb['L'], cb['pTp']] + cb['p'] + cb['grad_psi']
+        if not LP.finite(*vals):
+            bump('qub_skipped_nonfinite')
+        else:
+            if Fr(cb['pTp']) != 0 and abs(Fr(cb['pTp']) - sum(a * a for a in S.frv(cb['p']))) > \
+                    8 * Fr(EPS) * Fr(cb['pTp']):
+                return f'callback {k}: reported ‖p‖²={cb["pTp"]!r} is not the squared norm of the reported p'
+            ok, lhs, rhs, slack = qub_holds(cb, P['qubtol'])
+            if ok:
+                bump('qub_holds')
+            elif cb['L'] >= P['Lmax']:
+                bump('qub_violated_but_L_at_Lmax')
+            else:
+                return (f'callback {k}: ψ(x̂)={lhs!r} > ψ+∇ψᵀp+½L‖p‖²+margin={rhs!r} (slack {slack:.3g}) '
+                        f'although L={cb["L"]!r} < L_max={P["Lmax"]!r}')
+    for k in range(len(cbs) - 1):
+        a, b = cbs[k], cbs[k + 1]
+        if a['status'] != 'Busy':
+            return f'callback {k} has status {a["status"]} but is not the last one'
+        acc = a['tau'] == 1.0
+        if not acc and a['tau'] != 0.0:
+            return f'callback {k}: τ={a["tau"]!r} (accepted flag)'
+        if minrad == minrad and not (a['Delta'] >= minrad):
+            return f'trust radius {a["Delta"]!r} < min_radius {minrad!r} at k={k}'
+        it = pantr_iteration(segs[k]) if k < len(segs) else None
+        if it and it.get('bad'):
+            return it['bad']
+        # ---- acceptance: the ratio test ---------------------------------------------------------
+        tested = it is not None and LP.finite(*it['q']) and it['qmodel'] < 0
+        if acc and not tested:
+            return (f'candidate accepted at k={k} without a finite step with negative model value '
+                    f'(q_model={it["qmodel"] if it else None!r})')
+        if tested:
+            if it['phi_prox'] is None or it['phi_cand'] is None:
+                return f'k={k}: ratio test without recorded evaluations of the forward-backward point / candidate'
+            margin = (1 + abs(it['phi_prox'])) * trtol
+            rho = fdiv(it['phi_prox'] - it['phi_cand'] + margin, -it['qmodel'])
+            if approx:
+                rho = fdiv(rho, 1 - P['Lgf'])
+            if C.f2h(rho) != C.f2h(a['rho']):
+                return (f'k={k}: reported ρ={a["rho"]!r}, but (φ(x̂)−φ(cand)+(1+|φ(x̂)|)·TR_tol)/(−q_model)'
+                        f'{"/(1−Lγ)" if approx else ""} from the recorded evaluations is {rho!r} '
+                        f'(φ(x̂)={it["phi_prox"]!r}, φ(cand)={it["phi_cand"]!r}, q_model={it["qmodel"]!r}, '
+                        f'TR_tolerance_factor={trtol!r}, quadratic_upperbound_tolerance_factor={P["qubtol"]!r})')
+            if acc != (rho >= thr):
+                return (f'k={k}: candidate {"accepted" if acc else "rejected"} with ρ={rho!r}, '
+                        f'ratio_threshold_acceptable={thr!r}')
+            bump('ratio_recomputed_bitexact')
+            if trtol != P['qubtol']:
+                bump('ratio_recomputed_distinct_margins')
+        # ---- which point becomes the next iterate -------------------------------------------------
+        want = [xh + q for xh, q in zip(a['xhat'], a['q'])] if acc else a['xhat']
+        if LM.bits(want) != LM.bits(b['x']):
+            return (f'iterate {b["k"]} is not ' + ('x̂+q' if acc else 'x̂ (forward-backward step)') +
+                    f' of iterate {a["k"]}')
+        # ---- descent ------------------------------------------------------------------------------
+        vals = [a['fbe'], b['fbe'], a['gamma'], a['L'], a['pTp'], a['psi'], a['psi_hat'], b['psi'], b['gamma'],
+                b['pTp']] + a['p'] + a['grad_psi'] + b['p'] + b['grad_psi']
+        if not LP.finite(*vals):
+            bump('descent_skipped_nonfinite')
+            continue
+        if not qub_holds(a, P['qubtol'])[0]:
+            bump('descent_excluded_qub_not_met_at_Lmax')
+            continue
+        if not acc:
+            m = fb_step_descent(a, b, P, 'forward-backward step (candidate rejected / none)')
+            if m:
+                return m
+            bump('descent_fb_step')
+            continue
+        if not (thr >= 0):
+            bump('tr_excluded_negative_threshold')
+            continue
+        if approx and not (P['Lgf'] < 1):
+            bump('tr_excluded_approx_model_Lgf_ge_1')
+            continue
+        same_gamma = C.f2h(b['gamma']) == C.f2h(a['gamma'])
+        if not (same_gamma or rationew):
+            bump('tr_excluded_stepsize_changed_after_test')
+            continue
+        if C.f2h(it['phi_cand']) != C.f2h(b['fbe']):
+            return (f'k={k}: the accepted candidate was tested with φ={it["phi_cand"]!r} but iterate {k+1} is '
+                    f'reported with φ={b["fbe"]!r} (step size {"unchanged" if same_gamma else "changed"})')
+        # φ(k+1) ≤ φ(x̂_k) + TR-margin ≤ ψ(x̂_k)+h(x̂_k) + TR-margin ≤ φ(k) − c_k‖p_k‖² + qub-margin + TR-margin
+        trm = Fr((1 + abs(it['phi_prox']))) * Fr(trtol)
+        c = (1 - Fr(a['gamma']) * Fr(a['L'])) / (2 * Fr(a['gamma']))
+        pTp = sum(x * x for x in S.frv(a['p']))
+        rhs = Fr(a['fbe']) - c * pTp + (1 + abs(Fr(a['psi']))) * Fr(P['qubtol']) + trm
+        gp_a = sum(abs(x * y) for x, y in zip(S.frv(a['p']), S.frv(a['grad_psi'])))
+        mag = max(1, abs(Fr(a['fbe'])), abs(Fr(b['fbe'])), abs(Fr(a['psi'])), abs(Fr(a['psi_hat'])),
+                  abs(Fr(it['phi_prox'])), pTp / (2 * Fr(a['gamma'])), gp_a, trm)
+        slack = 64 * Fr(EPS) * mag
+        if Fr(b['fbe']) > rhs + slack:
+            return (f'trust-region step k={k} accepted (ρ={a["rho"]!r}) although φ_{k+1}={b["fbe"]!r} > '
+                    f'φ_k − (1−γL)/(2γ)‖p‖² + qub-margin + TR-margin = {float(rhs)!r} (slack {float(slack):.3g})')
+        bump('descent_tr_step')
+        if same_gamma:
+            bump('descent_tr_step_same_stepsize')
     return None
 
 
+# ------------------------------------------------------------------ check
+
+def nontrivial(op_line, out_line):
+    # ≥ 2 callbacks in any of the formats
+    return hash(op_line) if out_line.count(' ; CB ') >= 2 else None
+
+
+def adapters():
+    import multiloop
+    out = []
+    for s in multiloop.registry():
+        if s.name == 'panoc':
+            def gen(a, rng, n, exe, nsweep):
+                return CORPUS + [gen_run(rng).line() for _ in range(n)]
+            out.append(LM.Adapter(s, gen, extra_sources=[
+                'Alpaqa/Proofs/PanocLoop.lean', 'Alpaqa/Proofs/PanocDescent.lean',
+                'Alpaqa/Proofs/PanocLoopExample.lean']))
+        elif s.name in ('zerofpr', 'pantr', 'ocp'):
+            g = {'zerofpr': gen_run_zerofpr, 'pantr': gen_run_pantr, 'ocp': gen_run_ocp}[s.name]
+
+            def gen(a, rng, n, exe, nsweep, g=g):
+                corpus = list(a.mod.corpus_ops()) if hasattr(a.mod, 'corpus_ops') else []
+                return corpus + [g(rng, a.mod).line() for _ in range(n)]
+            # the monitors cope with diverging (tiny L_max) runs themselves: non-finite data is skipped
+            out.append(LM.Adapter(s, gen, skip_monitor=lambda op: False))
+    return out
+
+
+def solver_monitor(solver, o, h, st):
+    if h.startswith('S exception'):
+        return None
+    if solver.name == 'pantr':
+        return monitor_pantr(o, h, st)
+    return monitor(o, h, st, flavor=solver.name)
+
+
 def main(argv):
-    exe, log = LP.LOOPS['panoc']['build']()
-    tier = C.tier_from_argv(argv)
+    import multiloop
+    sols = adapters()
+    per = {}
 
-    def gen_ops(rng, n):
-        if HUNG:
-            return []          # a run already failed to terminate: no point in searching further
-        first = not COUNTS.get('_gen_calls')
-        bump('_gen_calls')
-        ops, dropped, hung = LP.prescreen(exe, (CORPUS if first else []) + [gen_run(rng).line() for _ in range(n)])
-        bump('runs_dropped_nan_injection_not_replayable', dropped)
-        HUNG.extend(hung)
-        return ops
+    def mon(solver, o, h, st):
+        before = dict(COUNTS)
+        try:
+            return solver_monitor(solver, o, h, st)
+        finally:
+            d = per.setdefault(solver.name, {})
+            for k, v in COUNTS.items():
+                if v != before.get(k, 0):
+                    d[k] = d.get(k, 0) + v - before.get(k, 0)
 
-    def extra(rep, broken, exe_, tier_):
-        LP.report_hung(rep, HUNG, 'PANOC')
-        rep.cov['monitor_counts'] = dict(sorted(COUNTS.items()))
-        rep.note('monitor coverage: ' + ', '.join(f'{k}={v}' for k, v in sorted(COUNTS.items())))
-        for need in ('descent_accelerated', 'descent_safeguarded', 'qub_holds', 'runs_adversarial_direction'):
-            if exe_ and COUNTS.get(need, 0) == 0:
-                broken.append(f'monitor never exercised: {need}')
+    def extra(rep, broken, tier):
+        LM.report_hung(rep, sols)
+        rep.cov['monitor_counts'] = {k: dict(sorted(v.items())) for k, v in per.items()}
+        for name, d in per.items():
+            rep.note(f'monitor coverage [{name}]: ' + ', '.join(f'{k}={v}' for k, v in sorted(d.items())))
+        need = {'panoc': ('descent_accelerated', 'descent_safeguarded', 'qub_holds', 'runs_adversarial_direction',
+                          'descent_accelerated_distinct_margins'),
+                'zerofpr': ('descent_accelerated', 'descent_safeguarded', 'qub_holds',
+                            'descent_accelerated_distinct_margins'),
+                'ocp': ('descent_accelerated', 'descent_safeguarded', 'qub_holds'),
+                'pantr': ('ratio_recomputed_bitexact', 'descent_fb_step', 'descent_tr_step', 'qub_holds')}
+        for s in sols:
+            if rep.cov.get('per_solver', {}).get(s.name, {}).get('runs'):
+                for k in need.get(s.name, ()):
+                    if per.get(s.name, {}).get(k, 0) == 0:
+                        broken.append(f'[{s.name}] monitor never exercised: {k}')
 
-    return C.standard_check(
-        'C05', argv,
-        gen_scripts=['gen_c05.py', 'gen_c06.py', 'gen_c15.py'],
-        modules=['Alpaqa.Props.C05'], driver=LP.LOOPS['panoc']['driver'],
-        extra_sources=['Alpaqa/Model/Panoc.lean', 'Alpaqa/Gen/C05.lean', 'Alpaqa/Gen/C06.lean',
-                       'Alpaqa/Proofs/PanocLoop.lean', 'Alpaqa/Proofs/PanocDescent.lean',
-                       'Alpaqa/Proofs/PanocInv.lean', 'Alpaqa/Proofs/PanocLoopExample.lean'],
-        harness_name='solvers', harness_sources=[], harness_builder=lambda: (exe, log),
-        gen_ops=gen_ops, monitor=monitor, nontrivial=nontrivial, extra_stage=extra,
-        driver_input=lambda o, h: o + ' || ' + S.events_only(h), impl_view=S.strip_events,
-        n_quick=700, n_thorough=12000,
+    return multiloop.loop_check(
+        'C05', argv, monitor=mon, nontrivial=nontrivial, solvers=sols, extra_stage=extra,
+        n_quick=1600, n_thorough=24000, sweep_quick=0, sweep_thorough=0,
         trusted_base=[
             'Lean 4.33 kernel + Mathlib (axioms: propext, Classical.choice, Quot.sound)',
-            'translator gen_c05 (fbe, qub_violated, linesearch_violated of panoc.tpp), gen_c06, gen_c15',
-            'hand-written loop model Alpaqa/Model/Panoc.lean tied by bit-exact trace replay (every '
-            'callback field incl. γ, L, φγ, τ; statistics; number of oracle calls) on the explored runs',
-            'theorems are over linearly ordered fields (real-number semantics); ψ, ∇ψ, direction '
-            'provider, stop flag are arbitrary oracles; the prox oracle is assumed to meet ProxOpt for '
-            'the safeguarded-step clause (componentwise discharged for box / box+ℓ1 from Props/C15)',
-            'ZeroFPR / PANTR / PANOC-OCP: no loop model yet — not covered by this check',
+            'translator gen_c05 (fbe, qub_violated, linesearch_violated of panoc / zerofpr / panoc-ocp .tpp, '
+            'compute_candidate_ratio / compute_updated_radius of pantr.tpp), gen_c06, gen_c15',
+            'hand-written loop models Alpaqa/Model/{Panoc,Zerofpr,Pantr,Ocp}.lean tied by bit-exact trace '
+            'replay (every callback field incl. γ, L, φγ, τ / ρ / Δ; statistics; number of oracle calls) on '
+            'the explored runs',
+            'theorems are over linearly ordered fields (real-number semantics); ψ, ∇ψ, direction provider, '
+            'stop flag are arbitrary oracles; the plain forward-backward-step clause uses envelope ≤ cost at '
+            'the prox point (ProxOpt: proved for PANOC from Props/C15 for box / box+ℓ1; hypothesis `henv` of '
+            'C05_Pantr.pantr_tr_iteration_descent; for ZeroFPR / PANOC-OCP the link is checked by the '
+            'monitor only)',
         ],
         assumptions=[
-            'descent clause covers force_linesearch = false (documented "testing only") and '
-            'recompute_last_prox_step_after_stepsize_change = false (or iterations without a step-size '
-            'change); γ-monotonicity and γ·L = Lγ_factor cover all settings',
+            'descent clause covers force_linesearch = false (documented "testing only") and iterates not '
+            'rewritten by recompute_last_prox_step_after_stepsize_change; PANTR accepted steps: '
+            'ratio_threshold_acceptable ≥ 0, Lγ_factor < 1 with ratio_approx_fbe_quadratic_model, step size '
+            'unchanged after the test (or compute_ratio_using_new_stepsize); γ-monotonicity, γ·L = Lγ_factor '
+            'and the quadratic upper bound cover all settings',
             'IEEE rounding not modelled in the theorems; monitors allow a few ulps of the operands'],
-        rule='seeded random PANOC runs on polynomial problems (n≤4, m≤3, convex and nonconvex, mixed '
-             'bounds, optional ℓ1), direction providers lbfgs / structured lbfgs / anderson / noop and an '
-             'adversarial one in ≥ 1/3 of the runs, all criteria, force / recomp / eager / updcand on and '
-             'off, NaN injection, stop injection, small L_max; non-trivial = at least two callbacks',
+        rule='per solver (PANOC, ZeroFPR, PANTR, PANOC-OCP): seeded random runs on polynomial problems / OCPs '
+             '(convex and nonconvex, mixed bounds, optional ℓ1), all direction providers incl. adversarial ones '
+             '(≥ 1/3 of the PANOC runs), all criteria, force / recomp / eager / updcand on and off, NaN and stop '
+             'injection, small L_max; quadratic_upperbound_tolerance_factor ∈ {10ε, 1e-8, 1e-4, 1e-2, 0.25} and '
+             'linesearch_tolerance_factor / TR_tolerance_factor ∈ {10ε, 1e-10, 1e-6, 1e-3} drawn independently; '
+             '20 % long runs towards a stationary point (tolerance 1e-13); non-trivial = at least two callbacks',
     )
 
 
